@@ -66,6 +66,29 @@ func genCase(t *rapid.T) Case {
 	if gen.Pick(t, 10, "heap") == 0 && c.X.Form == 0 && !costlyOp {
 		c.X.Coeff = gen.DigitsN(t, rapid.IntRange(39, 80).Draw(t, "hl"), gen.Pick(t, 10, "hs"), "heapc")
 	}
+	if costlyOp && gen.Pick(t, 6, "edge") == 1 && c.X.Form == 0 {
+		// Operands at the edge of the package's exponent range, where the composite functions
+		// fail part-way through (an inner Ln, Mul or Exp hits the limit): what a failed call
+		// leaves in the destination must not depend on aliasing either.
+		c.Ctx.Emax, c.Ctx.Emin = gen.Limit, -gen.Limit
+		nd := int32(len(c.X.Coeff))
+		if rapid.Bool().Draw(t, "edgelow") {
+			c.X.Exp = -gen.Limit + int32(rapid.IntRange(0, 40).Draw(t, "edgeo"))
+		} else {
+			c.X.Exp = gen.Limit - nd + 1 - int32(rapid.IntRange(0, 40).Draw(t, "edgeo2"))
+		}
+		if c.Op == "pow" && c.Y.Form == 0 {
+			switch gen.Pick(t, 3, "edgey") {
+			case 0: // just below an integer
+				c.Y = core.Dec{Coeff: "9999" + gen.Digits(t, 3, "ey"), Exp: -7 + int32(gen.Pick(t, 4, "eye"))}
+			case 1: // a tiny fraction
+				c.Y = core.Dec{Coeff: gen.Digits(t, 3, "ey2"), Exp: -gen.Limit + int32(rapid.IntRange(0, 20).Draw(t, "eye2"))}
+				if c.Y.Coeff == "0" {
+					c.Y.Coeff = "1"
+				}
+			}
+		}
+	}
 	pats := []string{"d=x", "d=y", "x=y", "d=x=y"}
 	if !arith.Binary(c.Op) && c.Op != "big" {
 		pats = []string{"d=x"}
